@@ -1,6 +1,1301 @@
-//! C16: not implemented yet.
-use crate::util::Args;
-pub fn main(_a: &Args) {
-    eprintln!("c16: not implemented");
-    std::process::exit(2);
+//! C16: data and image stores.
+//!
+//! Part A: every history of insert/remove/clear over a small key alphabet on an empty store,
+//! one digest per history (result of the last operation + the whole store seen through iter()).
+//! Part B: "world" cases: a font loaded from a generated UFO whose data/ and images/ trees are
+//! then changed between operations; finally Font::save and a snapshot of the written tree.
+//! Both parts also evaluate the property's own clauses on what the implementation did.
+use crate::util::*;
+use norad::datastore::{DataType, Store};
+use norad::{AffineTransform, Font};
+use serde_json::{json, Value};
+use std::collections::BTreeMap;
+use std::ffi::OsString;
+use std::os::unix::ffi::{OsStrExt, OsStringExt};
+use std::path::{Component, Path, PathBuf};
+
+const SIG: [u8; 8] = [137, 80, 78, 71, 13, 10, 26, 10];
+
+fn pb(raw: &[u8]) -> PathBuf {
+    PathBuf::from(OsString::from_vec(raw.to_vec()))
+}
+fn text(p: &Path) -> Vec<u8> {
+    p.as_os_str().as_bytes().to_vec()
+}
+
+/// StoreError variant -> code (by name, so that the harness builds whatever variants exist)
+fn serr_code_dbg(d: &str) -> u64 {
+    const NAMES: [(&str, u64); 9] = [
+        ("DirUnderFile", 1),
+        ("EmptyPath", 2),
+        ("NotPlainFileOrDir", 3),
+        ("PathIsAbsolute", 4),
+        ("InvalidPathComponent", 5),
+        ("NotPlainFile", 6),
+        ("Subdir", 7),
+        ("InvalidImage", 8),
+        ("Io", 9),
+    ];
+    // longest name first: NotPlainFileOrDir before NotPlainFile
+    let mut best: Option<(usize, u64)> = None;
+    for (n, c) in NAMES {
+        if d.starts_with(n) {
+            let rest = &d[n.len()..];
+            if rest.is_empty() || rest.starts_with('(') || rest.starts_with(' ') {
+                if best.map_or(true, |(l, _)| n.len() > l) {
+                    best = Some((n.len(), c));
+                }
+            }
+        }
+    }
+    best.map_or(90, |(_, c)| c)
+}
+fn serr_code<E: std::fmt::Debug>(e: &E) -> u64 {
+    serr_code_dbg(&format!("{:?}", e))
+}
+
+// ---------------------------------------------------------------------------------------------
+// the property's clauses on a key set (through keys())
+// ---------------------------------------------------------------------------------------------
+fn key_set_failures(image: bool, keys: &[PathBuf]) -> Vec<String> {
+    let mut f = vec![];
+    for k in keys {
+        let t = String::from_utf8_lossy(&text(k)).to_string();
+        if k.as_os_str().is_empty() {
+            f.push("empty key".to_string());
+        }
+        if k.is_absolute() || k.components().any(|c| matches!(c, Component::RootDir)) {
+            f.push(format!("key `{}` is not relative", t));
+        }
+        if k.components().any(|c| !matches!(c, Component::Normal(_) | Component::RootDir)) {
+            f.push(format!("key `{}` has a `.`/`..` component", t));
+        }
+        if image && k.components().count() != 1 {
+            f.push(format!("image key `{}` has a directory part", t));
+        }
+    }
+    for a in keys {
+        for b in keys {
+            let ca: Vec<_> = a.components().collect();
+            let cb: Vec<_> = b.components().collect();
+            if ca.len() < cb.len() && cb[..ca.len()] == ca[..] {
+                f.push(format!(
+                    "key `{}` is a proper path prefix of key `{}`",
+                    String::from_utf8_lossy(&text(a)),
+                    String::from_utf8_lossy(&text(b))
+                ));
+            }
+        }
+    }
+    f
+}
+
+// ---------------------------------------------------------------------------------------------
+// Part A
+// ---------------------------------------------------------------------------------------------
+const KEY_ALPHA: [&[u8]; 12] =
+    [b"a", b"a/b", b"a/b/c", b"b", b"a/", b"./a", b"a//b", b"..", b"../x", b"/a", b"", b"A"];
+
+fn img_content(c: u64, pos: u8) -> Vec<u8> {
+    match c {
+        0 => {
+            let mut v = SIG.to_vec();
+            v.push(pos);
+            v
+        }
+        1 => vec![137, 80, 78, 71, 13, 10, 26, 11, pos],
+        _ => vec![],
+    }
+}
+fn nops(image: bool) -> u64 {
+    if image {
+        49
+    } else {
+        25
+    }
+}
+/// returns the result code of the operation
+fn apply_op<T: DataType>(image: bool, st: &mut Store<T>, i: u64, pos: u8) -> u64 {
+    let (nk, per) = (12u64, if image { 3 } else { 1 });
+    if i < nk * per {
+        let key = pb(KEY_ALPHA[(i / per) as usize]);
+        let data = if image { img_content(i % per, pos) } else { vec![pos] };
+        match st.insert(key, data) {
+            Ok(()) => 0,
+            Err(e) => serr_code(&e),
+        }
+    } else if i < nk * per + nk {
+        st.remove(&pb(KEY_ALPHA[(i - nk * per) as usize]));
+        0
+    } else {
+        st.clear();
+        0
+    }
+}
+type Snap = Vec<(Vec<u8>, Result<Vec<u8>, u64>)>;
+fn snapshot<T: DataType>(st: &Store<T>) -> Snap {
+    let mut v: Snap = st
+        .iter()
+        .map(|(k, r)| (text(k), r.map(|b| b.to_vec()).map_err(|e| serr_code(&e))))
+        .collect();
+    v.sort();
+    v
+}
+fn state_code(image: bool, snap: &Snap) -> u64 {
+    let canon: &[&[u8]] = if image { &[b"a", b"b", b"A"] } else { &[b"a", b"a/b", b"a/b/c", b"b", b"A"] };
+    let mut acc = 0u64;
+    for (k, r) in snap {
+        let idx = canon.iter().position(|c| *c == &k[..]);
+        let cid = match r {
+            Ok(b) if !image && b.len() == 1 && b[0] < 5 => Some(b[0] as u64 + 1),
+            Ok(b) if image && b.len() == 9 && b[..8] == SIG && b[8] < 5 => Some(b[8] as u64 + 1),
+            _ => None,
+        };
+        match (idx, cid) {
+            (Some(i), Some(v)) => acc += v * 6u64.pow(i as u32),
+            _ => acc += 100000,
+        }
+    }
+    acc
+}
+fn enc3(d: u64, out: &mut String) {
+    out.push((48 + ((d / 4096) % 64) as u8) as char);
+    out.push((48 + ((d / 64) % 64) as u8) as char);
+    out.push((48 + (d % 64) as u8) as char);
+}
+
+struct Exh<'a> {
+    image: bool,
+    depth: usize,
+    plen: usize,
+    lines: String,
+    cur: String,
+    hist: Vec<u64>,
+    count: u64,
+    accepted: u64,
+    rcodes: BTreeMap<u64, u64>,
+    failures: &'a mut Vec<Value>,
+}
+impl<'a> Exh<'a> {
+    fn fail(&mut self, what: String) {
+        let v = json!({"part": "exhaustive", "kind": self.image as u64,
+            "ops": self.hist.clone(), "history": describe_hist(self.image, &self.hist), "what": what});
+        push_failure(self.failures, v);
+    }
+    fn oracle<T: DataType>(&mut self, st: &Store<T>, before: Option<&Snap>, r: u64, after: &Snap) {
+        let keys: Vec<PathBuf> = st.keys().cloned().collect();
+        for f in key_set_failures(self.image, &keys) {
+            self.fail(f);
+        }
+        if keys.len() != st.len() || st.is_empty() != keys.is_empty() || keys.len() != after.len() {
+            self.fail("len()/is_empty()/keys()/iter() disagree".into());
+        }
+        for (k, c) in after {
+            match c {
+                Ok(b) => {
+                    if self.image && !b.starts_with(&SIG) {
+                        self.fail(format!("image `{}` does not start with the PNG signature", String::from_utf8_lossy(k)));
+                    }
+                }
+                Err(_) => self.fail("an inserted entry reads back as an error".into()),
+            }
+        }
+        if let Some(b) = before {
+            if r != 0 && b != after {
+                self.fail("a rejected insertion changed the store".into());
+            }
+        }
+    }
+    fn node<T: DataType + Clone>(&mut self, st: &Store<T>, r: u64, before: Option<&Snap>) {
+        let snap = snapshot(st);
+        self.oracle(st, before, r, &snap);
+        let d = r * 8000 + state_code(self.image, &snap);
+        self.count += 1;
+        *self.rcodes.entry(r).or_insert(0) += 1;
+        if r == 0 && !self.hist.is_empty() {
+            self.accepted += 1;
+        }
+        let depth_here = self.hist.len();
+        if depth_here < self.plen {
+            let pre: Vec<String> = self.hist.iter().map(|x| x.to_string()).collect();
+            let mut s = String::new();
+            enc3(d, &mut s);
+            self.lines.push_str(&format!("{} 0 {}\n", pre.join(","), s));
+        } else if depth_here == self.plen {
+            self.cur.clear();
+            enc3(d, &mut self.cur);
+        } else {
+            let mut s = String::new();
+            enc3(d, &mut s);
+            self.cur.push_str(&s);
+        }
+        if depth_here < self.depth {
+            for i in 0..nops(self.image) {
+                let mut st2 = st.clone();
+                let r2 = apply_op(self.image, &mut st2, i, depth_here as u8);
+                self.hist.push(i);
+                self.node(&st2, r2, Some(&snap));
+                self.hist.pop();
+            }
+        }
+        if depth_here == self.plen {
+            let pre: Vec<String> = self.hist.iter().map(|x| x.to_string()).collect();
+            let line = format!("{} {} {}\n", pre.join(","), self.depth - self.plen, self.cur);
+            self.lines.push_str(&line);
+        }
+    }
+}
+fn case_size(v: &Value) -> usize {
+    v["ops"].as_array().map_or(0, |a| a.len())
+}
+/// keep at most 40 failing inputs, preferring short ones
+fn push_failure(fs: &mut Vec<Value>, v: Value) {
+    if fs.len() < 40 {
+        fs.push(v);
+        return;
+    }
+    let (mut worst, mut wl) = (0, 0);
+    for (i, f) in fs.iter().enumerate() {
+        if case_size(f) >= wl {
+            worst = i;
+            wl = case_size(f);
+        }
+    }
+    if case_size(&v) < wl {
+        fs[worst] = v;
+    }
+}
+fn describe_op(image: bool, i: u64) -> String {
+    let (nk, per) = (12u64, if image { 3 } else { 1 });
+    let k = |j: u64| format!("`{}`", String::from_utf8_lossy(KEY_ALPHA[j as usize]));
+    if i < nk * per {
+        if image {
+            format!("insert {} {}", k(i / per), ["png", "non-png", "empty"][(i % per) as usize])
+        } else {
+            format!("insert {}", k(i))
+        }
+    } else if i < nk * per + nk {
+        format!("remove {}", k(i - nk * per))
+    } else {
+        "clear".into()
+    }
+}
+fn describe_hist(image: bool, h: &[u64]) -> Vec<String> {
+    h.iter().map(|i| describe_op(image, *i)).collect()
+}
+
+fn run_exhaustive<T: DataType + Clone>(image: bool, depth: usize, out: &Path, failures: &mut Vec<Value>) -> Value {
+    let plen = depth.saturating_sub(2);
+    let mut e = Exh {
+        image,
+        depth,
+        plen,
+        lines: String::new(),
+        cur: String::new(),
+        hist: vec![],
+        count: 0,
+        accepted: 0,
+        rcodes: BTreeMap::new(),
+        failures,
+    };
+    let st: Store<T> = Store::default();
+    e.node(&st, 0, None);
+    write_file(&out.join(format!("exh_{}.txt", if image { "image" } else { "data" })), &e.lines);
+    json!({"depth": depth, "histories": e.count, "accepted_last_op": e.accepted,
+           "result_codes": e.rcodes.iter().map(|(k, v)| (k.to_string(), json!(v))).collect::<serde_json::Map<_, _>>()})
+}
+
+fn replay_exhaustive<T: DataType + Clone>(image: bool, ops: &[u64]) {
+    let mut st: Store<T> = Store::default();
+    println!("{} store, empty", if image { "image" } else { "data" });
+    for (pos, i) in ops.iter().enumerate() {
+        let before = snapshot(&st);
+        let r = apply_op(image, &mut st, *i, pos as u8);
+        let after = snapshot(&st);
+        let keys: Vec<PathBuf> = st.keys().cloned().collect();
+        println!(
+            "  {:<28} -> code {}  keys {:?}",
+            describe_op(image, *i),
+            r,
+            after.iter().map(|(k, _)| String::from_utf8_lossy(k).to_string()).collect::<Vec<_>>()
+        );
+        for f in key_set_failures(image, &keys) {
+            println!("    PROPERTY FAILS: {}", f);
+        }
+        if r != 0 && before != after {
+            println!("    PROPERTY FAILS: a rejected insertion changed the store");
+        }
+    }
+}
+
+// ---------------------------------------------------------------------------------------------
+// Part B: world cases
+// ---------------------------------------------------------------------------------------------
+#[derive(Clone, Debug, PartialEq)]
+enum Dent {
+    File(Vec<u8>),
+    Other,
+    EmptyDir,
+}
+type Disk = BTreeMap<Vec<Vec<u8>>, Dent>;
+
+fn names_of(s: &str) -> Vec<Vec<u8>> {
+    s.split('/').map(|x| x.as_bytes().to_vec()).collect()
+}
+fn disk_to_json(d: &Option<Disk>) -> Value {
+    match d {
+        None => Value::Null,
+        Some(d) => Value::Array(
+            d.iter()
+                .map(|(p, e)| {
+                    json!([p, match e {
+                        Dent::File(b) => json!({"f": b}),
+                        Dent::Other => json!("o"),
+                        Dent::EmptyDir => json!("e"),
+                    }])
+                })
+                .collect(),
+        ),
+    }
+}
+fn bytes_of(v: &Value) -> Vec<u8> {
+    v.as_array().map(|a| a.iter().map(|x| x.as_u64().unwrap_or(0) as u8).collect()).unwrap_or_default()
+}
+fn disk_from_json(v: &Value) -> Option<Disk> {
+    let a = v.as_array()?;
+    let mut d = Disk::new();
+    for e in a {
+        let p: Vec<Vec<u8>> = e[0].as_array().map(|x| x.iter().map(bytes_of).collect()).unwrap_or_default();
+        let ent = if e[1] == json!("o") {
+            Dent::Other
+        } else if e[1] == json!("e") {
+            Dent::EmptyDir
+        } else {
+            Dent::File(bytes_of(&e[1]["f"]))
+        };
+        d.insert(p, ent);
+    }
+    Some(d)
+}
+fn join_names(p: &[Vec<u8>]) -> Vec<u8> {
+    p.join(&b'/')
+}
+/// (re)create `dir` with exactly this content
+fn materialise(dir: &Path, d: &Option<Disk>) {
+    if dir.symlink_metadata().is_ok() {
+        std::fs::remove_dir_all(dir).unwrap();
+    }
+    if let Some(d) = d {
+        std::fs::create_dir_all(dir).unwrap();
+        for (p, e) in d {
+            let full = dir.join(pb(&join_names(p)));
+            match e {
+                Dent::File(b) => {
+                    std::fs::create_dir_all(full.parent().unwrap()).unwrap();
+                    std::fs::write(&full, b).unwrap();
+                }
+                Dent::Other => {
+                    std::fs::create_dir_all(full.parent().unwrap()).unwrap();
+                    std::os::unix::fs::symlink("no-such-target", &full).unwrap();
+                }
+                Dent::EmptyDir => std::fs::create_dir_all(&full).unwrap(),
+            }
+        }
+    }
+}
+/// every file and directory below `root`: relative text -> Some(bytes) | None (directory)
+fn snap_tree(root: &Path) -> BTreeMap<Vec<u8>, Option<Vec<u8>>> {
+    let mut m = BTreeMap::new();
+    fn go(base: &Path, dir: &Path, m: &mut BTreeMap<Vec<u8>, Option<Vec<u8>>>) {
+        let rd = match std::fs::read_dir(dir) {
+            Ok(r) => r,
+            Err(_) => return,
+        };
+        for e in rd.flatten() {
+            let p = e.path();
+            let rel = text(p.strip_prefix(base).unwrap());
+            let md = match p.symlink_metadata() {
+                Ok(m) => m,
+                Err(_) => continue,
+            };
+            if md.file_type().is_symlink() {
+                m.insert(rel, Some(b"<symlink>".to_vec()));
+            } else if md.is_dir() {
+                m.insert(rel, None);
+                go(base, &p, m);
+            } else {
+                m.insert(rel, Some(std::fs::read(&p).unwrap_or_default()));
+            }
+        }
+    }
+    go(root, root, &mut m);
+    m
+}
+
+fn g_names(p: &[Vec<u8>]) -> String {
+    g_list(&p.iter().map(|n| g_bytes(n)).collect::<Vec<_>>())
+}
+fn g_disk(d: &Disk) -> String {
+    g_list(
+        &d.iter()
+            .map(|(p, e)| {
+                format!(
+                    "({}, {})",
+                    g_names(p),
+                    match e {
+                        Dent::File(b) => format!("DFile {}", g_bytes(b)),
+                        Dent::Other => "DOther".to_string(),
+                        Dent::EmptyDir => "DEmptyDir".to_string(),
+                    }
+                )
+            })
+            .collect::<Vec<_>>(),
+    )
+}
+fn g_odisk(d: &Option<Disk>) -> String {
+    match d {
+        None => "None".into(),
+        Some(d) => format!("(Some {})", g_disk(d)),
+    }
+}
+fn g_kind(k: u64) -> &'static str {
+    if k == 0 {
+        "KData"
+    } else {
+        "KImage"
+    }
+}
+fn case_to_gallina(c: &Value) -> String {
+    let mut ops = vec![];
+    for o in c["ops"].as_array().unwrap() {
+        let k = o["k"].as_u64().unwrap_or(0);
+        let raw = g_bytes(&bytes_of(&o["raw"]));
+        ops.push(match o["t"].as_str().unwrap() {
+            "ins" => format!("WInsert {} {} {}", g_kind(k), raw, g_bytes(&bytes_of(&o["data"]))),
+            "rem" => format!("WRemove {} {}", g_kind(k), raw),
+            "get" => format!("WGet {} {}", g_kind(k), raw),
+            "clr" => format!("WClear {}", g_kind(k)),
+            "iter" => format!("WIter {}", g_kind(k)),
+            "has" => format!("WContains {} {}", g_kind(k), raw),
+            "disk" => format!("WDisk {} {}", g_kind(k), g_disk(&disk_from_json(&o["d"]).unwrap_or_default())),
+            _ => "WSave".to_string(),
+        });
+    }
+    format!(
+        "{{| w_dd := {}; w_di := {}; w_ops := {} |}}",
+        g_odisk(&disk_from_json(&c["dd"])),
+        g_odisk(&disk_from_json(&c["di"])),
+        g_list(&ops)
+    )
+}
+
+fn tm_bytes(b: &[u8]) -> Tm {
+    Tm::L(b.iter().map(|x| Tm::N(*x as u64)).collect())
+}
+fn tm_keys<T: DataType>(st: &Store<T>) -> Tm {
+    let mut ks: Vec<Vec<u8>> = st.keys().map(|k| text(k)).collect();
+    ks.sort();
+    Tm::L(ks.iter().map(|k| tm_bytes(k)).collect())
+}
+fn tm_res(r: &Result<Vec<u8>, u64>) -> Tm {
+    match r {
+        Ok(b) => Tm::L(vec![Tm::N(0), tm_bytes(b)]),
+        Err(c) => Tm::L(vec![Tm::N(1), Tm::N(*c)]),
+    }
+}
+
+/// what the oracle remembers about one store
+#[derive(Default)]
+struct Shadow {
+    /// contents that have been handed out or put in and must stay what they are
+    known: Vec<(PathBuf, Result<Vec<u8>, u64>)>,
+    /// keys that came from the directory listing and have not been read yet
+    pending: Vec<PathBuf>,
+}
+impl Shadow {
+    fn forget(&mut self, k: &Path) {
+        self.known.retain(|(p, _)| p.as_path() != k);
+        self.pending.retain(|p| p.as_path() != k);
+    }
+}
+
+struct Exec {
+    fails: Vec<String>,
+    stats: BTreeMap<&'static str, u64>,
+    verbose: bool,
+}
+impl Exec {
+    fn bump(&mut self, k: &'static str) {
+        *self.stats.entry(k).or_insert(0) += 1;
+    }
+    fn fail(&mut self, s: String) {
+        if self.verbose {
+            println!("    PROPERTY FAILS: {}", s);
+        }
+        self.fails.push(s);
+    }
+}
+
+fn disk_file<'a>(d: &'a Option<Disk>, key: &Path) -> Option<&'a Vec<u8>> {
+    let d = d.as_ref()?;
+    let names: Vec<Vec<u8>> = key.components().map(|c| c.as_os_str().as_bytes().to_vec()).collect();
+    match d.get(&names) {
+        Some(Dent::File(b)) => Some(b),
+        _ => None,
+    }
+}
+
+/// one observed read of `key` (through get or iter) checked against the lazy clauses
+fn check_read(
+    x: &mut Exec,
+    image: bool,
+    sh: &mut Shadow,
+    disk: &Option<Disk>,
+    key: &Path,
+    raw_plain: bool,
+    res: &Result<Vec<u8>, u64>,
+) {
+    let name = String::from_utf8_lossy(&text(key)).to_string();
+    if let Ok(b) = res {
+        if image && !b.starts_with(&SIG) {
+            x.fail(format!("image `{}` was handed out without the PNG signature", name));
+        }
+    }
+    if let Some(pos) = sh.known.iter().position(|(p, _)| p.as_path() == key) {
+        let old = sh.known[pos].1.clone();
+        match (&old, res) {
+            (Ok(a), Ok(b)) if a == b => {}
+            (Err(_), Err(_)) => {}
+            // an implementation that retries after an error must hand out what is on disk now
+            (Err(_), Ok(b)) if disk_file(disk, key) == Some(b) => sh.known[pos].1 = res.clone(),
+            _ => x.fail(format!(
+                "content of `{}` changed between two reads without an insert ({:?} then {:?})",
+                name, old, res
+            )),
+        }
+        return;
+    }
+    if sh.pending.iter().any(|p| p.as_path() == key) {
+        x.bump("lazy_first_reads");
+        let on_disk = disk_file(disk, key);
+        match (res, on_disk) {
+            (Ok(b), Some(d)) if b == d => {}
+            (Ok(b), d) => x.fail(format!("lazy content of `{}` is {:?} but the disk holds {:?}", name, b, d)),
+            (Err(c), Some(d)) => {
+                if raw_plain && (!image || d.starts_with(&SIG)) {
+                    x.fail(format!("`{}` is readable and valid on disk but was reported as error {}", name, c));
+                }
+            }
+            (Err(_), None) => {}
+        }
+        sh.pending.retain(|p| p.as_path() != key);
+        sh.known.push((key.to_path_buf(), res.clone()));
+    }
+}
+
+fn check_known<T: DataType>(x: &mut Exec, st: &Store<T>, sh: &Shadow, except: Option<&Path>, why: &str) {
+    for (k, old) in &sh.known {
+        if Some(k.as_path()) == except {
+            continue;
+        }
+        let now = st.get(k).map(|r| r.map(|b| b.to_vec()).map_err(|e| serr_code(&e)));
+        let same = match (&now, old) {
+            (Some(Ok(a)), Ok(b)) => a == b,
+            (Some(_), Err(_)) => true, // error entries are judged where they are read (check_read)
+            _ => false,
+        };
+        if !same {
+            x.fail(format!("{}: entry `{}` was {:?}, is now {:?}", why, String::from_utf8_lossy(&text(k)), old, now));
+        }
+    }
+}
+
+fn store_op<T: DataType>(
+    x: &mut Exec,
+    image: bool,
+    st: &mut Store<T>,
+    sh: &mut Shadow,
+    disk: &Option<Disk>,
+    o: &Value,
+) -> Tm {
+    let raw = bytes_of(&o["raw"]);
+    let t = o["t"].as_str().unwrap_or("");
+    let tm = match t {
+        "ins" => {
+            let data = bytes_of(&o["data"]);
+            let keys_before: Vec<Vec<u8>> = {
+                let mut v: Vec<_> = st.keys().map(|k| text(k)).collect();
+                v.sort();
+                v
+            };
+            let r = st.insert(pb(&raw), data.clone());
+            let code = match &r {
+                Ok(()) => 0,
+                Err(e) => serr_code(e),
+            };
+            let key = pb(&raw);
+            if code == 0 {
+                x.bump("insert_ok");
+                sh.forget(&key);
+                check_known(x, st, sh, None, "an insertion changed another entry");
+                let got = st.get(&key).map(|r| r.map(|b| b.to_vec()).map_err(|e| serr_code(&e)));
+                if got != Some(Ok(data.clone())) {
+                    x.fail(format!("inserted content does not read back: {:?}", got));
+                }
+                // remember under the stored spelling
+                let stored = st.keys().find(|k| k.as_path() == key.as_path()).cloned().unwrap_or(key);
+                sh.known.push((stored, Ok(data)));
+            } else {
+                x.bump("insert_rejected");
+                let mut keys_after: Vec<_> = st.keys().map(|k| text(k)).collect();
+                keys_after.sort();
+                if keys_after != keys_before {
+                    x.fail(format!("a rejected insertion (code {}) changed the key set", code));
+                }
+                check_known(x, st, sh, None, "a rejected insertion changed the store");
+            }
+            Tm::L(vec![Tm::N(code), tm_keys(st)])
+        }
+        "rem" => {
+            let key = pb(&raw);
+            st.remove(&key);
+            sh.forget(&key);
+            check_known(x, st, sh, None, "a removal changed another entry");
+            Tm::L(vec![tm_keys(st)])
+        }
+        "clr" => {
+            st.clear();
+            sh.known.clear();
+            sh.pending.clear();
+            Tm::L(vec![tm_keys(st)])
+        }
+        "get" => {
+            let key = pb(&raw);
+            let got = st.get(&key).map(|r| r.map(|b| b.to_vec()).map_err(|e| serr_code(&e)));
+            if let Some(res) = &got {
+                let stored = st.keys().find(|k| k.as_path() == key.as_path()).cloned();
+                match stored {
+                    Some(stored) => {
+                        let plain = text(&stored) == raw;
+                        check_read(x, image, sh, disk, &stored, plain, res);
+                    }
+                    None => x.fail("get returned a value for a key that keys() does not list".into()),
+                }
+            }
+            Tm::L(vec![Tm::opt(got.as_ref().map(tm_res)), tm_keys(st)])
+        }
+        "iter" => {
+            let mut v: Vec<(PathBuf, Result<Vec<u8>, u64>)> =
+                st.iter().map(|(k, r)| (k.clone(), r.map(|b| b.to_vec()).map_err(|e| serr_code(&e)))).collect();
+            v.sort_by(|a, b| text(&a.0).cmp(&text(&b.0)));
+            for (k, r) in &v {
+                check_read(x, image, sh, disk, k, true, r);
+            }
+            Tm::L(v.iter().map(|(k, r)| Tm::L(vec![tm_bytes(&text(k)), tm_res(r)])).collect())
+        }
+        "has" => Tm::b(st.contains_key(&pb(&raw))),
+        _ => Tm::L(vec![]),
+    };
+    let keys: Vec<PathBuf> = st.keys().cloned().collect();
+    for f in key_set_failures(image, &keys) {
+        x.fail(f);
+    }
+    if keys.len() != st.len() {
+        x.fail("len() and keys() disagree".into());
+    }
+    tm
+}
+
+/// run one case in a fresh sandbox; returns the observation dump
+fn exec_case(c: &Value, sandbox: &Path, x: &mut Exec) -> Tm {
+    let _ = std::fs::remove_dir_all(sandbox);
+    std::fs::create_dir_all(sandbox).unwrap();
+    let src = sandbox.join("src.ufo");
+    Font::new().save(&src).expect("skeleton font saves");
+    let mut disks: [Option<Disk>; 2] = [disk_from_json(&c["dd"]), disk_from_json(&c["di"])];
+    materialise(&src.join("data"), &disks[0]);
+    materialise(&src.join("images"), &disks[1]);
+    let font = match catch(|| Font::load(&src)) {
+        Err(p) => {
+            x.fail(format!("Font::load panicked: {}", p));
+            return Tm::L(vec![Tm::N(97)]);
+        }
+        Ok(Err(e)) => {
+            x.bump("load_refused");
+            let d = format!("{:?}", e);
+            let which = if d.starts_with("DataStore") {
+                1
+            } else if d.starts_with("ImagesStore") {
+                2
+            } else {
+                98
+            };
+            // inner variant: the text after "source: "
+            let code = d.find("source: ").map(|i| serr_code_dbg(&d[i + 8..])).unwrap_or(90);
+            if x.verbose {
+                println!("  Font::load -> {}", d);
+            }
+            return Tm::L(vec![Tm::L(vec![Tm::N(which), Tm::N(code)])]);
+        }
+        Ok(Ok(f)) => f,
+    };
+    let mut font = font;
+    let mut sh: [Shadow; 2] = [Shadow::default(), Shadow::default()];
+    sh[0].pending = font.data.keys().cloned().collect();
+    sh[1].pending = font.images.keys().cloned().collect();
+    // the listing itself: every file of the tree is a key, nothing else
+    for (i, d) in disks.iter().enumerate() {
+        let mut want: Vec<Vec<u8>> = d
+            .iter()
+            .flatten()
+            .filter(|(_, e)| matches!(e, Dent::File(_)))
+            .map(|(p, _)| join_names(p))
+            .collect();
+        want.sort();
+        let mut have: Vec<Vec<u8>> =
+            if i == 0 { font.data.keys().map(|k| text(k)).collect() } else { font.images.keys().map(|k| text(k)).collect() };
+        have.sort();
+        if want != have {
+            x.fail(format!("loaded keys {:?} differ from the files on disk {:?}", have, want));
+        }
+    }
+    let mut out = vec![Tm::N(0)];
+    for o in c["ops"].as_array().unwrap() {
+        let k = o["k"].as_u64().unwrap_or(0) as usize;
+        let t = o["t"].as_str().unwrap_or("");
+        let tm = match t {
+            "disk" => {
+                disks[k] = disk_from_json(&o["d"]);
+                materialise(&src.join(if k == 0 { "data" } else { "images" }), &disks[k]);
+                Tm::L(vec![])
+            }
+            "save" => do_save(&font, o, sandbox, &src, x),
+            _ => {
+                let r = catch(|| {
+                    if k == 0 {
+                        store_op(x, false, &mut font.data, &mut sh[0], &disks[0], o)
+                    } else {
+                        store_op(x, true, &mut font.images, &mut sh[1], &disks[1], o)
+                    }
+                });
+                match r {
+                    Ok(tm) => tm,
+                    Err(p) => {
+                        x.fail(format!("operation {} panicked: {}", o, p));
+                        Tm::L(vec![Tm::N(97)])
+                    }
+                }
+            }
+        };
+        if x.verbose {
+            println!("  {:<60} -> {}", describe_wop(o), tm.to_string());
+        }
+        out.push(tm);
+    }
+    Tm::L(out)
+}
+
+fn do_save(font: &Font, o: &Value, sandbox: &Path, src: &Path, x: &mut Exec) -> Tm {
+    let inplace = o["inplace"].as_bool().unwrap_or(false);
+    let target = if inplace { src.to_path_buf() } else { sandbox.join("out.ufo") };
+    std::fs::write(sandbox.join("canary.txt"), b"canary").unwrap();
+    if !inplace && o["pre"].as_bool().unwrap_or(true) {
+        // something that a save must replace, and must leave alone when it refuses
+        std::fs::create_dir_all(target.join("data/old")).unwrap();
+        std::fs::write(target.join("data/old/stale.bin"), b"stale").unwrap();
+        std::fs::write(target.join("images"), b"was a file").unwrap();
+        std::fs::write(target.join("keep.txt"), b"keep").unwrap();
+    }
+    let before = snap_tree(sandbox);
+    let r = catch(|| font.save(&target));
+    let after = snap_tree(sandbox);
+    let tpre = text(target.strip_prefix(sandbox).unwrap());
+    let inside = |k: &Vec<u8>| k.starts_with(&tpre) && (k.len() == tpre.len() || k[tpre.len()] == b'/');
+    // nothing outside the target may change, whatever the outcome
+    let outside_before: Vec<_> = before.iter().filter(|(k, _)| !inside(k)).collect();
+    let outside_after: Vec<_> = after.iter().filter(|(k, _)| !inside(k)).collect();
+    if outside_before != outside_after {
+        x.fail("save changed something outside its target directory".into());
+    }
+    let entries = |x: &mut Exec| -> (Vec<(Vec<u8>, Vec<u8>)>, Vec<(Vec<u8>, Vec<u8>)>, bool) {
+        let mut bad = false;
+        let mut d = vec![];
+        for (k, r) in font.data.iter() {
+            match r {
+                Ok(b) => d.push((text(k), b.to_vec())),
+                Err(_) => bad = true,
+            }
+        }
+        let mut i = vec![];
+        for (k, r) in font.images.iter() {
+            match r {
+                Ok(b) => i.push((text(k), b.to_vec())),
+                Err(_) => bad = true,
+            }
+        }
+        let _ = x;
+        (d, i, bad)
+    };
+    match r {
+        Err(p) => {
+            x.fail(format!("Font::save panicked: {}", p));
+            Tm::L(vec![Tm::N(3)])
+        }
+        Ok(Ok(())) => {
+            x.bump("save_ok");
+            let (d, i, bad) = entries(x);
+            if bad {
+                x.fail("save succeeded although a store entry is in an error state".into());
+            }
+            // every entry verbatim under data/ and images/, and nothing else there
+            for (dir, ents) in [("data", &d), ("images", &i)] {
+                let mut want: BTreeMap<Vec<u8>, Vec<u8>> = BTreeMap::new();
+                for (k, b) in ents.iter() {
+                    let mut p = tpre.clone();
+                    p.push(b'/');
+                    p.extend_from_slice(dir.as_bytes());
+                    p.push(b'/');
+                    p.extend_from_slice(k);
+                    want.insert(p, b.clone());
+                }
+                let mut dpre = tpre.clone();
+                dpre.push(b'/');
+                dpre.extend_from_slice(dir.as_bytes());
+                let have: BTreeMap<Vec<u8>, Vec<u8>> = after
+                    .iter()
+                    .filter(|(k, v)| v.is_some() && k.starts_with(&dpre) && k.len() > dpre.len() && k[dpre.len()] == b'/')
+                    .map(|(k, v)| (k.clone(), v.clone().unwrap()))
+                    .collect();
+                if want != have {
+                    x.fail(format!(
+                        "files under {}/ after save {:?} are not the store's entries {:?}",
+                        dir,
+                        have.keys().map(|k| String::from_utf8_lossy(k).to_string()).collect::<Vec<_>>(),
+                        want.keys().map(|k| String::from_utf8_lossy(k).to_string()).collect::<Vec<_>>()
+                    ));
+                }
+            }
+            // dump of target/data and target/images
+            let mut l = vec![];
+            for (k, v) in after.iter().filter(|(k, _)| inside(k) && k.len() > tpre.len()) {
+                let rel = &k[tpre.len() + 1..];
+                let top = rel.split(|c| *c == b'/').next().unwrap();
+                if top == b"data" || top == b"images" {
+                    l.push(Tm::L(vec![
+                        tm_bytes(rel),
+                        match v {
+                            Some(b) => Tm::L(vec![tm_bytes(b)]),
+                            None => Tm::L(vec![]),
+                        },
+                    ]));
+                }
+            }
+            Tm::L(vec![Tm::N(0), Tm::L(l)])
+        }
+        Ok(Err(e)) => {
+            let d = format!("{:?}", e);
+            if d.starts_with("InvalidStoreEntry") {
+                x.bump("save_refused");
+                if before != after {
+                    x.fail("save refused an invalid store entry but had already changed the disk".into());
+                }
+                Tm::L(vec![Tm::N(1)])
+            } else {
+                x.fail(format!("save failed after its validation phase: {}", d.chars().take(200).collect::<String>()));
+                Tm::L(vec![Tm::N(2)])
+            }
+        }
+    }
+}
+
+fn describe_wop(o: &Value) -> String {
+    let k = if o["k"].as_u64().unwrap_or(0) == 0 { "data" } else { "images" };
+    let raw = String::from_utf8_lossy(&bytes_of(&o["raw"])).to_string();
+    match o["t"].as_str().unwrap_or("") {
+        "ins" => format!("{}.insert(`{}`, {:?})", k, raw, bytes_of(&o["data"])),
+        "rem" => format!("{}.remove(`{}`)", k, raw),
+        "get" => format!("{}.get(`{}`)", k, raw),
+        "clr" => format!("{}.clear()", k),
+        "iter" => format!("{}.iter()", k),
+        "has" => format!("{}.contains_key(`{}`)", k, raw),
+        "disk" => format!(
+            "<ufo>/{} becomes {:?}",
+            k,
+            disk_from_json(&o["d"])
+                .unwrap_or_default()
+                .iter()
+                .map(|(p, e)| (String::from_utf8_lossy(&join_names(p)).to_string(), format!("{:?}", e)))
+                .collect::<Vec<_>>()
+        ),
+        _ => format!(
+            "font.save({})",
+            if o["inplace"].as_bool().unwrap_or(false) {
+                "in place"
+            } else if o["pre"].as_bool().unwrap_or(true) {
+                "over an existing directory with stale content"
+            } else {
+                "to a path that does not exist yet"
+            }
+        ),
+    }
+}
+
+// ------------------------------------------------------------------------------------ generation
+const RAW_POOL: [&str; 24] = [
+    "a", "a/b", "a/b/c", "b", "a/", "./a", "a//b", "..", "../x", "/a", "", "A", "a/b/", "a/./b", "b/..", ".",
+    "a/b/c/d", "ab", "a/c", "c/d", "f.txt", ".hid", "a/.", "b//",
+];
+const DATA_PATHS: [&str; 12] = ["a", "b", "A", "a/b", "a/b/c", "a/c", "c/d", "ab", "f.txt", ".hid", "b/x y", "c/d/e"];
+const IMG_PATHS: [&str; 5] = ["a", "b", "A", "i.png", "f.txt"];
+
+fn conflicts(d: &Disk, p: &[Vec<u8>]) -> bool {
+    d.keys().any(|q| {
+        let n = q.len().min(p.len());
+        q[..n] == p[..n]
+    })
+}
+fn rand_bytes(rng: &mut Rng) -> Vec<u8> {
+    let n = rng.below(4);
+    (0..n).map(|_| *rng.pick(&[0u8, 1, 10, 47, 137, 255])).collect()
+}
+fn rand_image(rng: &mut Rng) -> Vec<u8> {
+    let r = rng.below(100);
+    let mut v = SIG.to_vec();
+    if r < 70 {
+        v.extend(rand_bytes(rng));
+        v
+    } else if r < 76 {
+        v
+    } else if r < 82 {
+        v.truncate(7);
+        v
+    } else if r < 88 {
+        let i = rng.below(8) as usize;
+        v[i] ^= 1 << rng.below(8);
+        v.extend(rand_bytes(rng));
+        v
+    } else if r < 92 {
+        vec![137, 80, 78, 71, 0, 0, 0, 0]
+    } else if r < 96 {
+        vec![]
+    } else {
+        rand_bytes(rng)
+    }
+}
+fn gen_disk(rng: &mut Rng, image: bool) -> Option<Disk> {
+    if rng.chance(if image { 35 } else { 25 }, 100) {
+        return None;
+    }
+    let mut d = Disk::new();
+    let n = rng.below(if image { 4 } else { 6 });
+    for _ in 0..n {
+        let p = names_of(if image { *rng.pick(&IMG_PATHS) } else { *rng.pick(&DATA_PATHS) });
+        if !conflicts(&d, &p) {
+            let b = if image { rand_image(rng) } else { rand_bytes(rng) };
+            d.insert(p, Dent::File(b));
+        }
+    }
+    let r = rng.below(100);
+    if image {
+        if r < 4 {
+            let p = names_of("sub");
+            if !conflicts(&d, &p) {
+                d.insert(p, Dent::EmptyDir);
+            }
+        } else if r < 8 {
+            let p = names_of("sub/x");
+            if !conflicts(&d, &p) {
+                d.insert(p, Dent::File(SIG.to_vec()));
+            }
+        } else if r < 13 {
+            let p = names_of("lnk");
+            if !conflicts(&d, &p) {
+                d.insert(p, Dent::Other);
+            }
+        }
+    } else {
+        if r < 7 {
+            let p = names_of(*rng.pick(&["lnk", "c/lnk", "a/lnk"]));
+            if !conflicts(&d, &p) {
+                d.insert(p, Dent::Other);
+            }
+        } else if r < 18 {
+            let p = names_of(*rng.pick(&["e", "c/e", "a/e/e"]));
+            if !conflicts(&d, &p) {
+                d.insert(p, Dent::EmptyDir);
+            }
+        }
+    }
+    Some(d)
+}
+fn respell(rng: &mut Rng, plain: &str) -> String {
+    match rng.below(10) {
+        0 => format!("{}/", plain),
+        1 => format!("./{}", plain),
+        2 => plain.replacen('/', "//", 1),
+        3 => format!("{}/.", plain),
+        4 => plain.replacen('/', "/./", 1),
+        5 => format!("{}/../{}", plain, plain),
+        _ => plain.to_string(),
+    }
+}
+fn mutate_disk(rng: &mut Rng, d: &Option<Disk>, image: bool) -> Option<Disk> {
+    let mut d = d.clone().unwrap_or_default();
+    // no symlinks after the load: reading through one is the operating system's business
+    let files: Vec<Vec<Vec<u8>>> = d.iter().filter(|(_, e)| matches!(e, Dent::File(_))).map(|(p, _)| p.clone()).collect();
+    match rng.below(8) {
+        0 | 1 if !files.is_empty() => {
+            let p = rng.pick(&files).clone();
+            let b = if image { rand_image(rng) } else { rand_bytes(rng) };
+            d.insert(p, Dent::File(b));
+        }
+        2 | 3 if !files.is_empty() => {
+            let p = rng.pick(&files).clone();
+            d.remove(&p);
+        }
+        4 if !files.is_empty() => {
+            // a file becomes a directory
+            let p = rng.pick(&files).clone();
+            d.remove(&p);
+            let mut q = p.clone();
+            q.push(b"x".to_vec());
+            d.insert(q, Dent::File(vec![7]));
+        }
+        5 => {
+            // a directory becomes a file
+            if let Some(p) = files.iter().find(|p| p.len() > 1).cloned() {
+                let top = p[..1].to_vec();
+                let ks: Vec<_> = d.keys().filter(|q| q[..1] == top[..]).cloned().collect();
+                for k in ks {
+                    d.remove(&k);
+                }
+                d.insert(top, Dent::File(if image { SIG.to_vec() } else { vec![9] }));
+            }
+        }
+        6 => d.clear(),
+        _ => {
+            let p = names_of(if image { *rng.pick(&IMG_PATHS) } else { *rng.pick(&DATA_PATHS) });
+            if !conflicts(&d, &p) {
+                let b = if image { rand_image(rng) } else { rand_bytes(rng) };
+                d.insert(p, Dent::File(b));
+            }
+        }
+    }
+    d.retain(|_, e| !matches!(e, Dent::Other));
+    Some(d)
+}
+fn gen_case(rng: &mut Rng, long: bool) -> Value {
+    let empty_font = rng.chance(1, 5);
+    let mut disks: [Option<Disk>; 2] =
+        if empty_font { [None, None] } else { [gen_disk(rng, false), gen_disk(rng, true)] };
+    let dd = disk_to_json(&disks[0]);
+    let di = disk_to_json(&disks[1]);
+    let mut cands: [Vec<String>; 2] = [vec![], vec![]];
+    for k in 0..2 {
+        for (p, e) in disks[k].iter().flatten() {
+            if matches!(e, Dent::File(_)) {
+                cands[k].push(String::from_utf8_lossy(&join_names(p)).to_string());
+            }
+        }
+    }
+    let n = if long { rng.range(12, 30) } else { rng.range(1, 11) };
+    let mut ops = vec![];
+    for _ in 0..n {
+        let k = if rng.chance(6, 10) { 0usize } else { 1 };
+        let raw: String = if !cands[k].is_empty() && rng.chance(45, 100) {
+            let c = rng.pick(&cands[k]).clone();
+            respell(rng, &c)
+        } else if k == 1 && rng.chance(1, 2) {
+            rng.pick(&["a", "b", "A", "i.png", "a/", "./a", "..", "", "/a", "a/b", "."]).to_string()
+        } else {
+            rng.pick(&RAW_POOL).to_string()
+        };
+        let r = rng.below(100);
+        let o = if r < 34 {
+            let data = if k == 1 { rand_image(rng) } else { rand_bytes(rng) };
+            if !raw.is_empty() && !raw.starts_with('/') && !raw.contains("..") && !raw.starts_with('.') {
+                cands[k].push(raw.trim_end_matches('/').replace("//", "/"));
+            }
+            json!({"t": "ins", "k": k, "raw": raw.as_bytes(), "data": data})
+        } else if r < 56 {
+            json!({"t": "get", "k": k, "raw": raw.as_bytes()})
+        } else if r < 66 {
+            json!({"t": "rem", "k": k, "raw": raw.as_bytes()})
+        } else if r < 73 {
+            json!({"t": "iter", "k": k})
+        } else if r < 76 {
+            json!({"t": "clr", "k": k})
+        } else if r < 82 {
+            json!({"t": "has", "k": k, "raw": raw.as_bytes()})
+        } else if !empty_font {
+            disks[k] = mutate_disk(rng, &disks[k], k == 1);
+            json!({"t": "disk", "k": k, "d": disk_to_json(&disks[k])})
+        } else {
+            json!({"t": "get", "k": k, "raw": raw.as_bytes()})
+        };
+        ops.push(o);
+    }
+    if rng.chance(9, 10) {
+        ops.push(json!({"t": "save", "k": 0, "inplace": !empty_font && rng.chance(1, 4), "pre": rng.chance(2, 3)}));
+    }
+    json!({"dd": dd, "di": di, "ops": ops})
+}
+
+/// drop operations one at a time as long as some clause of the property still fails
+fn shrink_case(c: &Value, sandbox: &Path, fails: Vec<String>) -> (Value, Vec<String>) {
+    let mut best = c.clone();
+    let mut what = fails;
+    let mut progress = true;
+    while progress {
+        progress = false;
+        let n = best["ops"].as_array().map_or(0, |a| a.len());
+        for i in (0..n).rev() {
+            let mut cand = best.clone();
+            cand["ops"].as_array_mut().unwrap().remove(i);
+            let mut x = Exec { fails: vec![], stats: BTreeMap::new(), verbose: false };
+            let _ = exec_case(&cand, sandbox, &mut x);
+            if !x.fails.is_empty() {
+                best = cand;
+                what = x.fails;
+                progress = true;
+            }
+        }
+    }
+    (best, what)
+}
+
+fn glyph_image_codes(raws: &[&str]) -> Vec<u64> {
+    raws.iter()
+        .map(|r| match norad::Image::new(PathBuf::from(r), None, AffineTransform::default()) {
+            Ok(_) => 0,
+            Err(e) => serr_code(&e),
+        })
+        .collect()
+}
+
+/// keys the operating system cannot hold: recorded, not judged (see the evidence)
+fn os_level_probe(sandbox: &Path) -> Value {
+    let mut res = serde_json::Map::new();
+    for (name, key) in [("nul_byte_in_component", b"a\0b".to_vec()), ("component_longer_than_NAME_MAX", vec![b'x'; 300])] {
+        let _ = std::fs::remove_dir_all(sandbox);
+        std::fs::create_dir_all(sandbox).unwrap();
+        let target = sandbox.join("t.ufo");
+        Font::new().save(&target).unwrap();
+        std::fs::write(target.join("keep.txt"), b"keep").unwrap();
+        let mut f = Font::new();
+        let ins = f.data.insert(pb(&key), vec![1]);
+        let outcome = match ins {
+            Err(e) => format!("insert rejected: {:?}", e),
+            Ok(()) => match catch(|| f.save(&target)) {
+                Err(p) => format!("save panicked: {}", p),
+                Ok(Ok(())) => "save ok".to_string(),
+                Ok(Err(e)) => format!(
+                    "insert accepted; save failed with {} and the old target content {}",
+                    format!("{:?}", e).split(|c| c == ' ' || c == '{' || c == '(').next().unwrap_or(""),
+                    if target.join("keep.txt").exists() { "is still there" } else { "is gone" }
+                ),
+            },
+        };
+        res.insert(name.to_string(), json!(outcome));
+    }
+    Value::Object(res)
+}
+
+pub fn main(a: &Args) {
+    let sandbox_root = a.out.join("sandbox");
+    if let Some(p) = &a.replay {
+        let v: Value = serde_json::from_str(&std::fs::read_to_string(p).expect("replay file")).expect("json");
+        if v["part"] == json!("exhaustive") {
+            let ops: Vec<u64> = v["ops"].as_array().unwrap().iter().map(|x| x.as_u64().unwrap()).collect();
+            if v["kind"].as_u64() == Some(1) {
+                replay_exhaustive::<norad::datastore::Image>(true, &ops);
+            } else {
+                replay_exhaustive::<norad::datastore::Data>(false, &ops);
+            }
+        } else {
+            let mut x = Exec { fails: vec![], stats: BTreeMap::new(), verbose: true };
+            println!("<ufo>/data   = {}", v["dd"]);
+            println!("<ufo>/images = {}", v["di"]);
+            let tm = exec_case(&v, &sandbox_root, &mut x);
+            println!("observed: {}", tm.to_string());
+            println!("property failures: {}", x.fails.len());
+            let _ = std::fs::remove_dir_all(&sandbox_root);
+        }
+        return;
+    }
+    let mut failures: Vec<Value> = vec![];
+    // Part A
+    let (dd, di) = if a.thorough() { (5, 4) } else { (4, 3) };
+    let sa = run_exhaustive::<norad::datastore::Data>(false, dd, &a.out, &mut failures);
+    let sb = run_exhaustive::<norad::datastore::Image>(true, di, &a.out, &mut failures);
+    // Part B
+    let ncases = if a.thorough() { 60_000 } else { 6_000 };
+    let mut rng = Rng::new(a.seed);
+    let mut cases = String::new();
+    let mut jl = String::new();
+    let mut stats: BTreeMap<&'static str, u64> = BTreeMap::new();
+    let mut nops_total = 0u64;
+    // corpus first
+    let mut inputs: Vec<Value> = vec![];
+    for e in &a.extra {
+        if let Ok(s) = std::fs::read_to_string(e) {
+            if let Ok(v) = serde_json::from_str::<Value>(&s) {
+                if v["part"] != json!("exhaustive") {
+                    inputs.push(v);
+                }
+            }
+        }
+    }
+    let ncorpus = inputs.len();
+    let mut shrunk = 0;
+    for i in 0..ncases {
+        inputs.push(gen_case(&mut rng, i % 10 == 0));
+    }
+    for (i, c) in inputs.iter().enumerate() {
+        let mut x = Exec { fails: vec![], stats: BTreeMap::new(), verbose: false };
+        let tm = exec_case(c, &sandbox_root, &mut x);
+        nops_total += c["ops"].as_array().map_or(0, |o| o.len() as u64);
+        for (k, v) in x.stats {
+            *stats.entry(k).or_insert(0) += v;
+        }
+        if !x.fails.is_empty() {
+            let (mut v, what) = if shrunk < 6 {
+                shrunk += 1;
+                shrink_case(c, &sandbox_root, x.fails.clone())
+            } else {
+                (c.clone(), x.fails.clone())
+            };
+            v["what"] = json!(what);
+            v["index"] = json!(i);
+            v["history"] = json!(v["ops"].as_array().unwrap().iter().map(describe_wop).collect::<Vec<_>>());
+            push_failure(&mut failures, v);
+        }
+        cases.push_str(&format!("({}, {})\n", case_to_gallina(c), tm.to_string()));
+        jl.push_str(&c.to_string());
+        jl.push('\n');
+    }
+    let _ = std::fs::remove_dir_all(&sandbox_root);
+    write_file(&a.out.join("world_cases.txt"), &cases);
+    write_file(&a.out.join("world_cases.jsonl"), &jl);
+    // glyph::Image::new
+    let gi = glyph_image_codes(&RAW_POOL);
+    write_file(
+        &a.out.join("glyph_image.txt"),
+        &format!(
+            "({}, {})\n",
+            g_list(&RAW_POOL.iter().map(|r| g_bytes(r.as_bytes())).collect::<Vec<_>>()),
+            Tm::L(gi.iter().map(|c| Tm::N(*c)).collect()).to_string()
+        ),
+    );
+    let probe = os_level_probe(&sandbox_root);
+    let _ = std::fs::remove_dir_all(&sandbox_root);
+    let summary = json!({
+        "exhaustive_data": sa, "exhaustive_image": sb,
+        "world_cases": inputs.len(), "world_corpus_cases": ncorpus, "world_operations": nops_total,
+        "world_stats": stats.iter().map(|(k, v)| (k.to_string(), json!(v))).collect::<serde_json::Map<_, _>>(),
+        "glyph_image_names": RAW_POOL.len(),
+        "os_level_probe": probe,
+        "failures": failures,
+    });
+    write_file(&a.out.join("summary.json"), &summary.to_string());
 }
